@@ -144,6 +144,12 @@ pub fn gen(rng: &mut Rng, _tier: &str) -> String {
     let nops = rng.range(1, 25);
     let mut len = 0usize; // track the length so that `set` stays in range
     let mut ops: Vec<String> = Vec::new();
+    if rng.chance(1, 25) {
+        // a long string first: renderings, iteration and comparison loops have their own internal batch sizes
+        let n = *rng.pick(&[255usize, 256, 257, 512, 1023, 1024, 1025, 1100, 2048, 2049, 4100]);
+        ops.push(format!("fb.{}", show_digits(&rand_bases(rng, n))));
+        len = n;
+    }
     for _ in 0..nops {
         match rng.below(14) {
             0 | 1 | 2 => {
